@@ -1,4 +1,5 @@
 import QuinnModel.Lemmas.Mtud
+import QuinnModel.Conn.Sizing
 /-
 C13 — Datagrams never exceed the validated path MTU or peer limits.   (property theorems only)
 Core: the MTU discovery state machine (`MtuDiscovery`, mtud.rs) that owns `current_mtu` and emits the probes.
@@ -299,5 +300,24 @@ example : (runNew 1400 1250 none Config.default blackHoleOps).map (fun s => (s.c
 example : (exec (disabled 1400 1200) [.peerMax 1300, .reset 1400 1200]).currentMtu = 1300 := by decide
 example : (runNew 1400 1300 (some 1250) Config.default blackHoleOps).map (fun s => (s.currentMtu, s.peerMax)) = some (1250, 1250) := by decide
 example : (exec (disabled 1400 1300) ([.peerMax 1250] ++ blackHoleOps)).currentMtu = 1250 := by decide
+
+/-- "loss probes never exceed 1200 bytes": whenever a loss-probe credit is pending in the space being sent in — Initial,
+    Handshake or Data alike — the datagram started for it is limited to at most INITIAL_MTU = 1200 bytes, whatever the
+    MTU estimate; and it consumes exactly one credit -/
+theorem loss_probe_datagram_le_1200 (credits segmentSize : Nat) (h : 0 < credits) :
+    (Sizing.nextDatagramLimit credits segmentSize).2 ≤ 1200 ∧
+    (Sizing.nextDatagramLimit credits segmentSize).1 + 1 = credits := by
+  cases credits with
+  | zero => omega
+  | succ n =>
+    have hm : Gen.initialMtu = 1200 := by decide
+    show min segmentSize Gen.initialMtu ≤ 1200 ∧ n + 1 = n + 1
+    rw [hm]
+    exact ⟨Nat.min_le_right _ _, rfl⟩
+
+/-- without a pending credit the limit is the segment size (the MTU estimate) and nothing is consumed -/
+theorem ordinary_datagram_limit (segmentSize : Nat) : Sizing.nextDatagramLimit 0 segmentSize = (0, segmentSize) := rfl
+
+example : Sizing.nextDatagramLimit 2 1452 = (1, 1200) := by decide
 
 end QM.Props.C13
